@@ -15,6 +15,7 @@ import (
 func closureCheck(f *File, out string) *Violation {
 	m := collectNames(f)
 	a := ParseAsm(out)
+	m.noteOutput(a)
 	// (i) every label defined exactly once
 	var dups []string
 	for n, defs := range a.Labels {
